@@ -163,6 +163,8 @@ impl<M: Manager> UnreadyObject<'_, M> {
 impl<M: Manager> Drop for UnreadyObject<'_, M> {
     fn drop(&mut self) {
         if let Some(mut inner) = self.inner.take() {
+            #[cfg(deadpool_verif)]
+            crate::verif::point("m.unready.drop");
             self.pool.slots.lock().unwrap().size -= 1;
             self.pool.manager.detach(&mut inner.obj);
         }
@@ -320,8 +322,12 @@ impl<M: Manager, W: From<Object<M>>> Pool<M, W> {
     ///
     /// See [`PoolError`] for details.
     pub async fn timeout_get(&self, timeouts: &Timeouts) -> Result<W, PoolError<M::Error>> {
+        #[cfg(deadpool_verif)]
+        crate::verif::point("m.get.users");
         let _ = self.inner.users.fetch_add(1, Ordering::Relaxed);
         let users_guard = DropGuard(|| {
+            #[cfg(deadpool_verif)]
+            crate::verif::point("m.get.users_dec");
             let _ = self.inner.users.fetch_sub(1, Ordering::Relaxed);
         });
 
@@ -339,6 +345,8 @@ impl<M: Manager, W: From<Object<M>>> Pool<M, W> {
         };
 
         let (permit, inner_obj) = 'acquire: loop {
+            #[cfg(deadpool_verif)]
+            crate::verif::point("m.get.acquire");
             let permit = if non_blocking {
                 self.inner.semaphore.try_acquire().map_err(|e| match e {
                     TryAcquireError::Closed => PoolError::Closed,
@@ -360,10 +368,15 @@ impl<M: Manager, W: From<Object<M>>> Pool<M, W> {
                 .await?
             };
 
+            #[cfg(deadpool_verif)]
+            let verif_exit = crate::verif::PointOnDrop::new("m.get.exit");
+
             loop {
                 // Whether this call may use an idle object or create a new
                 // one is decided while holding the lock: a permit can be
                 // a leftover of a larger `max_size` (see `resize`).
+                #[cfg(deadpool_verif)]
+                crate::verif::point("m.get.pop");
                 let inner_obj = {
                     let mut slots = self.inner.slots.lock().unwrap();
                     let inner_obj = match self.inner.config.queue_mode {
@@ -374,6 +387,8 @@ impl<M: Manager, W: From<Object<M>>> Pool<M, W> {
                         if slots.size + slots.creating >= slots.max_size {
                             drop(slots);
                             permit.forget();
+                            #[cfg(deadpool_verif)]
+                            verif_exit.disarm();
                             continue 'acquire;
                         }
                         slots.creating += 1;
@@ -454,6 +469,8 @@ impl<M: Manager, W: From<Object<M>>> Pool<M, W> {
         // The caller has reserved a slot for the new object. Give it back
         // if the creation fails or is cancelled.
         let reservation = DropGuard(|| {
+            #[cfg(deadpool_verif)]
+            crate::verif::point("m.create.unreserve");
             self.inner.slots.lock().unwrap().creating -= 1;
         });
         let obj = apply_timeout(
@@ -464,6 +481,8 @@ impl<M: Manager, W: From<Object<M>>> Pool<M, W> {
         )
         .await?;
         reservation.disarm();
+        #[cfg(deadpool_verif)]
+        crate::verif::point("m.create.size");
         {
             let mut slots = self.inner.slots.lock().unwrap();
             slots.creating -= 1;
@@ -499,6 +518,8 @@ impl<M: Manager, W: From<Object<M>>> Pool<M, W> {
      * always reports a `max_size` of 0 for closed pools.
      */
     pub fn resize(&self, max_size: usize) {
+        #[cfg(deadpool_verif)]
+        crate::verif::point("m.resize.lock");
         let mut slots = self.inner.slots.lock().unwrap();
         if self.inner.semaphore.is_closed() {
             return;
@@ -512,6 +533,8 @@ impl<M: Manager, W: From<Object<M>>> Pool<M, W> {
             // discards them and objects returned in excess of `max_size`
             // don't add theirs back.
             for _ in max_size..old_max_size {
+                #[cfg(deadpool_verif)]
+                crate::verif::point("m.resize.forget");
                 match self.inner.semaphore.try_acquire() {
                     Ok(permit) => permit.forget(),
                     Err(_) => break,
@@ -537,6 +560,8 @@ impl<M: Manager, W: From<Object<M>>> Pool<M, W> {
         if max_size > old_max_size {
             let additional = slots.max_size - old_max_size;
             slots.vec.reserve_exact(additional);
+            #[cfg(deadpool_verif)]
+            crate::verif::point("m.resize.grow");
             self.inner.semaphore.add_permits(additional);
         }
     }
@@ -568,7 +593,11 @@ impl<M: Manager, W: From<Object<M>>> Pool<M, W> {
         &self,
         mut predicate: impl FnMut(&M::Type, Metrics) -> bool,
     ) -> RetainResult<M::Type> {
+        #[cfg(deadpool_verif)]
+        crate::verif::point("m.retain.status");
         let mut removed = Vec::with_capacity(self.status().size);
+        #[cfg(deadpool_verif)]
+        crate::verif::point("m.retain.lock");
         let mut guard = self.inner.slots.lock().unwrap();
         let mut i = 0;
         // This code can be simplified once `Vec::extract_if` lands in stable Rust.
@@ -605,6 +634,8 @@ impl<M: Manager, W: From<Object<M>>> Pool<M, W> {
         // The pool is closed and emptied while holding the lock so that
         // neither a concurrent `resize` nor an object which is being
         // returned can slip in between the two steps.
+        #[cfg(deadpool_verif)]
+        crate::verif::point("m.close.lock");
         let mut slots = self.inner.slots.lock().unwrap();
         self.inner.semaphore.close();
         slots.max_size = 0;
@@ -641,6 +672,36 @@ impl<M: Manager, W: From<Object<M>>> Pool<M, W> {
     #[must_use]
     pub fn manager(&self) -> &M {
         &self.inner.manager
+    }
+}
+
+#[cfg(deadpool_verif)]
+impl<M: Manager, W: From<Object<M>>> Pool<M, W> {
+    /// Internal state of this [`Pool`] (verification harness only).
+    pub fn verif_snapshot(&self) -> crate::verif::ManagedSnapshot {
+        crate::verif::ManagedSnapshot {
+            permits: self.inner.semaphore.available_permits(),
+            closed: self.inner.semaphore.is_closed(),
+            users: self.inner.users.load(Ordering::Relaxed),
+            slots: self
+                .inner
+                .slots
+                .try_lock()
+                .ok()
+                .map(|s| (s.size, s.creating, s.max_size, s.vec.len())),
+        }
+    }
+
+    /// Visits the idle objects in queue order (verification harness only).
+    /// Returns `false` if the slots are locked.
+    pub fn verif_idle(&self, mut f: impl FnMut(&M::Type, &Metrics)) -> bool {
+        match self.inner.slots.try_lock() {
+            Ok(slots) => {
+                slots.vec.iter().for_each(|o| f(&o.obj, &o.metrics));
+                true
+            }
+            Err(_) => false,
+        }
     }
 }
 
@@ -688,11 +749,17 @@ where
 
 impl<M: Manager> PoolInner<M> {
     fn return_object(&self, mut inner: ObjectInner<M>) {
+        #[cfg(deadpool_verif)]
+        crate::verif::point("m.ret.users");
         let _ = self.users.fetch_sub(1, Ordering::Relaxed);
+        #[cfg(deadpool_verif)]
+        crate::verif::point("m.ret.lock");
         let mut slots = self.slots.lock().unwrap();
         if slots.size <= slots.max_size {
             slots.vec.push_back(inner);
             drop(slots);
+            #[cfg(deadpool_verif)]
+            crate::verif::point("m.ret.add");
             self.semaphore.add_permits(1);
         } else {
             slots.size -= 1;
@@ -701,12 +768,18 @@ impl<M: Manager> PoolInner<M> {
         }
     }
     fn detach_object(&self, obj: &mut M::Type) {
+        #[cfg(deadpool_verif)]
+        crate::verif::point("m.take.users");
         let _ = self.users.fetch_sub(1, Ordering::Relaxed);
+        #[cfg(deadpool_verif)]
+        crate::verif::point("m.take.lock");
         let mut slots = self.slots.lock().unwrap();
         let add_permits = slots.size <= slots.max_size;
         slots.size -= 1;
         drop(slots);
         if add_permits {
+            #[cfg(deadpool_verif)]
+            crate::verif::point("m.take.add");
             self.semaphore.add_permits(1);
         }
         self.manager.detach(obj);
